@@ -215,3 +215,74 @@ def _deref(t):
     while isinstance(t, tuple) and t and t[0] in ('ref', 'deref', 'copy') and len(t) > 1 and isinstance(t[1], tuple):
         t = t[1]
     return t
+
+
+def run_fresh_state(rep, fx, rid):
+    """The MessageReceiver is one object for all datagrams: what an INFO_* submessage of one message set must not colour the next message."""
+    rep.rule(rid, 'each datagram is parsed, processed whole and with fresh interpreter state: handle_received_packet hands the message Message::read_from_buffer returned to '
+                  'handle_parsed_message on every path after a successful parse; handle_parsed_message calls reset() before the first submessage is handled and hands every '
+                  'submessage of the (decoded) message to handle_submessage; every field of the MessageReceiver that handle_interpreter_submessage assigns (INFO_TS, INFO_SRC, '
+                  'INFO_REPLY, INFO_DST: the set is read from the code) is re-initialised by reset() or by handle_parsed_message before the loop')
+    hp = fx.find(MR + 'handle_received_packet')
+    rep.analysed(hp)
+    og = Origins(hp, summaries=False)
+    P = Pos(hp)
+    edges = list(switch_edges(hp, fx, og))
+    parsed = [(s_, t_) for s_, t_, cond, lab in edges if lab == 'Ok' and cond[0] == 'discr' and cond[1][0] == 'call' and cond[1][1].endswith('read_from_buffer')]
+    fw = [(bb, 'term') for bb, t in hp.calls() if call_matches(t, 'MessageReceiver::handle_parsed_message') and
+          term_has(og.of_operand(t['args'][1], bb, 'term'), lambda x: x[0] == 'call' and x[1].endswith('read_from_buffer'))]
+    ok = len(parsed) == 1 and len(fw) == 1 and not any(P.can_reach((parsed[0][1], 0), (r, 'term'), avoid_pos=fw) for r in hp.return_blocks())
+    rep.check(ok, rid, 'handle_received_packet/parsed-is-processed', 'Ok(message) => handle_parsed_message(message) on every path',
+              'handle_received_packet does not hand every successfully parsed RTPS message to handle_parsed_message: received traffic is silently discarded', hp.where())
+    pm = fx.find(MR + 'handle_parsed_message')
+    rep.analysed(pm)
+    og = Origins(pm, summaries=False)
+    P = Pos(pm)
+    resets = [(bb, 'term') for bb, t in pm.calls() if call_matches(t, 'MessageReceiver::reset') and og.of_operand(t['args'][0], bb, 'term') in (('param', 1), ('ref', ('param', 1)), ('deref', ('param', 1)))]
+    subs = [(bb, t) for bb, t in pm.calls() if call_matches(t, 'MessageReceiver::handle_submessage')]
+    ok = len(resets) >= 1 and len(subs) >= 1 and all(P.every_path_passes(None, (bb, 'term'), via_pos=resets, from_entry=True) for bb, _ in subs)
+    rep.check(ok, rid, 'handle_parsed_message/reset-first', 'reset() before any submessage is handled', 'handle_parsed_message handles submessages without having reset the per-message '
+              'state: the source timestamp, reply locators or destination of the previous datagram are applied to this one', pm.where())
+    # every submessage handled
+    okl = False
+    edges = list(switch_edges(pm, fx, og))
+    for lp in natural_loops(pm):
+        blocks = lp[1]
+        nxt = [(nb, nt) for nb, nt in pm.calls() if nb in blocks and callee_res(nt).endswith('::next') and
+               term_has(og.of_operand(nt['args'][0], nb, 'term'), lambda x: x[0] == 'field' and x[1] == 'submessages')]
+        if not nxt:
+            continue
+        nb = nxt[0][0]
+        some = [(a, b_) for a, b_, cond, lab in edges if lab == 'Some' and a in blocks and cond[0] == 'discr' and cond[1][0] == 'call' and cond[1][1].endswith('::next')]
+        hs = [(bb, 'term') for bb, t in subs if bb in blocks and term_has(og.of_operand(t['args'][1], bb, 'term'), lambda x: x[0] == 'variant' and x[1] == 'Some')]
+        if some and hs and not any(P.can_reach((b_, 0), (nb, 'term'), avoid_pos=hs) for a, b_ in some):
+            okl = True
+    rep.check(okl, rid, 'handle_parsed_message/every-submessage', 'every item of message.submessages => handle_submessage before the next',
+              'handle_parsed_message does not hand every submessage of the message to handle_submessage', pm.where())
+    # interpreter state re-initialised
+    hi = fx.find(MR + 'handle_interpreter_submessage')
+    rs = fx.find(MR + 'reset')
+    rep.analysed(hi)
+    rep.analysed(rs)
+
+    def self_fields_written(b, before=None):
+        out = {}
+        Pb = Pos(b) if before else None
+        ogb = Origins(b, summaries=False)
+        for bb, si, st in b.statements():
+            if st['s'] == 'assign' and st['lhs']['l'] == 1 and st['lhs'].get('p') and len(st['lhs']['p']) == 2 and st['lhs']['p'][0] == '*' and isinstance(st['lhs']['p'][1], dict):
+                out.setdefault(st['lhs']['p'][1].get('n'), []).append((bb, si))
+        for bb, t in b.calls():
+            if callee_res(t).rsplit('::', 1)[-1] in ('clear', 'truncate') and t['args']:
+                a = _deref(ogb.of_operand(t['args'][0], bb, 'term'))
+                if a[0] == 'field' and a[2] == ('param', 1):
+                    out.setdefault(a[1], []).append((bb, 'term'))
+        return out
+    sticky = set(self_fields_written(hi))
+    cleared = set(self_fields_written(rs))
+    pre = self_fields_written(pm)
+    first_sub = [(bb, 'term') for bb, _ in subs]
+    early = {f for f, sites in pre.items() if all(P.every_path_passes(None, s_, via_pos=sites, from_entry=True) for s_ in first_sub)}
+    missing = sorted(f for f in sticky if f not in cleared and f not in early)
+    rep.check(len(sticky) >= 4 and not missing, rid, 'reset/covers-interpreter-state', '%d fields set by INFO_* submessages, all re-initialised per message' % len(sticky),
+              'fields an INFO_* submessage sets are not re-initialised for the next datagram: %s (set by handle_interpreter_submessage: %s)' % (', '.join(missing) or '-', ', '.join(sorted(sticky))), rs.where())
